@@ -701,6 +701,37 @@ func c16JudgeBuilt(c *mon.Ctx, in *c16Built) {
 		_ = tx.AddOpReturnOutput(r.Bytes(r.Intn(100)))
 	}
 	c.Distinct(prng.HashBytes(tx.Bytes(), []byte("built")))
+	// the node-dialect views obtained now are kept and marshalled again after
+	// every later change of the transaction: they are views of the live object
+	keptTx, keptList := tx.NodeJSON(), (&bt.Txs{tx}).NodeJSON()
+	kept := func(stage string) {
+		for name, w := range map[string]any{"tx.NodeJSON": keptTx, "Txs.NodeJSON": keptList} {
+			var js []byte
+			var err error
+			if !c.Try("json.Marshal(kept "+name+")", func() { js, err = json.Marshal(w) }) || err != nil {
+				continue
+			}
+			back := bt.NewTx()
+			var backs bt.Txs
+			if !c.Try("json.Unmarshal("+name+")", func() {
+				if name == "tx.NodeJSON" {
+					err = json.Unmarshal(js, back.NodeJSON())
+				} else if err = json.Unmarshal(js, backs.NodeJSON()); err == nil && len(backs) == 1 {
+					back = backs[0]
+				}
+			}) {
+				continue
+			}
+			if err != nil || !bytes.Equal(back.Bytes(), tx.Bytes()) {
+				c16Viol(c, "C16:kept-view-stale:"+name, func() string {
+					return fmt.Sprintf("the %s view obtained before the transaction was changed marshals (stage %s) to a document that decodes to %x, the transaction is now %x (err=%v)", name, stage, back.Bytes(), tx.Bytes(), err)
+				})
+			} else {
+				c.Count("kept-view:" + name + ":roundtrip")
+			}
+		}
+	}
+	kept("built:unsigned")
 	c16TxDialects(c, tx, "built:unsigned")
 	var err error
 	if !c.Try("bt.(*Tx).FillInput", func() {
@@ -709,11 +740,16 @@ func c16JudgeBuilt(c *mon.Ctx, in *c16Built) {
 		c.Fault(fmt.Sprintf("FillInput failed on a P2PKH input: %v", err))
 		return
 	}
+	kept("built:partially-signed")
 	c16TxDialects(c, tx, "built:partially-signed")
 	if !c.Try("bt.(*Tx).FillAllInputs", func() { err = tx.FillAllInputs(context.Background(), &unlocker.Getter{PrivateKey: priv}) }) || err != nil {
 		c.Fault(fmt.Sprintf("FillAllInputs failed on P2PKH inputs: %v", err))
 		return
 	}
+	kept("built:signed")
+	tx.AddOutput(&bt.Output{Satoshis: 7, LockingScript: bscript.NewFromBytes([]byte{0x51})})
+	tx.LockTime++
+	kept("built:signed+output")
 	c16TxDialects(c, tx, "built:signed")
 	c.Sample("built", 1, func() any { return map[string]any{"seed": in.Seed, "signed_tx": hex.EncodeToString(tx.Bytes())} })
 }
